@@ -73,16 +73,31 @@ fn near_misses(suffix: bool) -> Vec<(&'static str, bool)> {
         ("app_r00000.log.d", true),
         ("app_é_r00001.log", false),
         ("app_r00007.gz", false),
+        // numbers with a sign (integer parsers accept a leading '+')
+        ("app_r+0042.log", false),
+        ("app_r+00042.log", false),
+        ("app_r-0042.log", false),
     ];
     if suffix {
         v.push(("app_r00001", false));
         v.push(("app_rCURRENT", false));
+        // entries that are not files, whatever their name: a directory and a symlink to a
+        // directory (see SYMLINKS) named like rotated files
+        v.push(("app_r00042.log", true));
+        v.push(("app_r00043.log", true));
     } else {
         v.push(("app_r00001.log", false));
         v.push(("app_r00002.txt", false));
+        v.push(("app_r+0042", false));
+        v.push(("app_r00042", true));
+        v.push(("app_r00043", true));
     }
     v
 }
+
+/// "directories" of the alphabet that are created as a symlink to a directory next to the log
+/// directory
+const SYMLINKS: [&str; 2] = ["app_r00043.log", "app_r00043"];
 
 #[derive(Clone, Debug)]
 struct Case {
@@ -186,7 +201,11 @@ fn run(c: &Case, foreign: &[(&'static str, bool)]) -> Result<(RunObs, BTreeMap<S
     let mut before = BTreeMap::new();
     for (i, (n, is_dir)) in foreign.iter().enumerate() {
         let p = env.dir.join(n);
-        if *is_dir {
+        if *is_dir && SYMLINKS.contains(n) {
+            let target = env.root.path().join("archive.d");
+            std::fs::create_dir_all(&target).map_err(|e| e.to_string())?;
+            std::os::unix::fs::symlink(&target, &p).map_err(|e| e.to_string())?;
+        } else if *is_dir {
             std::fs::create_dir_all(&p).map_err(|e| e.to_string())?;
             std::fs::write(p.join("inner.log"), b"inner\n").ok();
         } else {
@@ -240,6 +259,9 @@ fn name_class(n: &str) -> &'static str {
         "appé.log" | "app_é_r00001.log" => "multi-byte",
         "app_r1.log" | "app_r.log" | "app_.log" | "app" => "short-infix",
         "app_r12.log" | "app_r2x.log" | "app_r2024.log" | "app_r00001_old.log" => "r+digit-fragment",
+        "app_r+0042.log" | "app_r+00042.log" | "app_r-0042.log" | "app_r+0042" => "signed-number",
+        "app_r00042.log" | "app_r00042" => "directory-named-like-a-log-file",
+        "app_r00043.log" | "app_r00043" => "symlink-to-directory-named-like-a-log-file",
         "app_r9999-99-99_99-99-99.log" | "app_r2024-05-15_12-30-10.restart-abcd.log" | "app_r2024-05-15_12-30-10.restart-" => "timestamp-like",
         "app_r00000.log.d" => "directory",
         "app_r00001.log.gz.gz" | "app_r00007.gz" | "app_r00001.log.bak" | "app_rCURRENT.log.old" => "extra-extension",
